@@ -223,6 +223,29 @@ def closure_wild(s):
     return re.sub(r'\|_\|', '|_w|', s)
 
 
+def enumerate_to_index_loop(s, rewrites=None):
+    """D15: `for (i, x) in v.iter().enumerate() { BODY }` over a slice/Vec `v` becomes the index loop it stands for,
+        let mut i: usize = 0; while i < v.len() { let x = &v[i]; BODY i += 1; }
+    (Enumerate<slice::Iter> yields (0, &v[0]), (1, &v[1]), ...). Only applied when BODY has no `continue` (which would
+    skip the increment); `return`, `?` and `break` keep their meaning. The Enumerate adapter is outside the Verus dialect."""
+    rx = re.compile(r'^([ \t]*)for \((\w+), (\w+)\) in (\w+)\.iter\(\)\.enumerate\(\) \{', re.M)
+    while True:
+        m = rx.search(s)
+        if not m:
+            return s
+        ind, i, x, v = m.group(1), m.group(2), m.group(3), m.group(4)
+        ob = m.end() - 1
+        cb = _match(s, ob, '{', '}')
+        body = s[ob + 1:cb]
+        if re.search(r'\bcontinue\b', body):
+            raise Undecided('unsupported construct: continue inside an enumerate loop (D15 not applicable)')
+        new = ('%slet mut %s: usize = 0;\n%swhile %s < %s.len() {\n%s    let %s = &%s[%s];%s\n%s    %s += 1;\n%s}'
+               % (ind, i, ind, i, v, ind, x, v, i, body.rstrip(), ind, i, ind))
+        if rewrites is not None:
+            rewrites.append('D15 enumerate loop over %s' % v)
+        s = s[:m.start()] + new + s[cb + 1:]
+
+
 def slice_struct(t, keep):
     """D3: keep only the named fields (order preserved)."""
     i = t.index('{')
